@@ -221,7 +221,7 @@ def replay_path(args):
                 if s.counts() != before:
                     return bad("ended-handle-advances-underlying", len(path), {"handle": hid, "expected": before, "observed": s.counts()})
                 for meth in ("asend", "athrow"):
-                    if hid in closed and hasattr(s.h[hid], meth):
+                    if (hid in closed or last_t["shut"][hid - 1]) and hasattr(s.h[hid], meth):
                         arg = (None,) if meth == "asend" else (BlockError(),)
                         before_log = len(s.rec.log)
                         s.run(getattr(s.h[hid], meth)(*arg))
